@@ -1,7 +1,9 @@
 -- Root of the RF library: imports every property file (kept current by hand).
+import RF.Props.C06
 import RF.Props.C07
 import RF.Props.C09
 import RF.Props.C12
 import RF.Props.C17
 import RF.Props.C18
 import RF.Props.C19
+import RF.Props.C20
